@@ -85,6 +85,9 @@ def part(prop, out, with_render=False):
             if not any(a == 'R' and b == 'R' for a, b in zip(ql, ql[1:])):
                 cands.append(dict(kernel='nesting:' + c['kernel'], prop=prop, what='nesting:' + c['kernel'], model=dict(qualifiers=ql, via='json' if c['kernel'] == 'from_json_type_inner' else 'sdl')))
     if prop == 'C09':
+        # the trait lists (response_derives / variables_derives) are unconstrained strings in the field kernel: no serde
+        # attribute may depend on them
+        cands += [c for c in K.k_render_field(R, 1 if vc.tier() == 'quick' else 2, {prop}) if c['prop'] == prop]
         # naming conventions must not reach the wire strings of enums either (value names unconstrained, normalization symbolic)
         for nv in ((1, 2) if vc.tier() == 'quick' else (1, 2, 3)):
             for c in K.k_enum_definition(R, nv):
@@ -102,6 +105,9 @@ def part(prop, out, with_render=False):
             ok, desc, rp = confirm(C, c['model'], other_variant=c['model'].get('fragments_other_variant', False))
         elif c['kernel'].startswith('nesting:'):
             ok, desc, rp = confirm_nesting(C, c['model'])
+        elif c['kernel'] == 'render' and prop == 'C09':
+            import native
+            ok, desc, rp = confirm_trait_lists(native.ReplayTool(sc), c['model'])
         elif c['kernel'] == 'enum_definition':
             ok, desc, rp = confirm_enum_literals(C, c['model'])
         else:
@@ -157,6 +163,33 @@ def confirm_enum_literals(C, model):
             if mv and norm(mv.group(1)) != norm(p_['e']):
                 return False, f'{where}: the schema value {p_["e"]!r} deserializes to the variant `{mv.group(1)}`, which is named after another value', rp
     return True, 'schema values map to their own variants and back', rp
+
+
+def confirm_trait_lists(rt, model):
+    """C09 replay: the same field generated under different spellings of the trait lists must carry the same attributes"""
+    import native
+    expr = K.graphql_type_expr(model.get('qualifiers') or [], 'Int')
+    sdl = f'type Query {{ f: {expr} g: [Int] }}\n'
+    query = 'query Q { f g }\n'
+    spellings = ['Serialize', 'serde::Serialize', 'Debug', 'Debug, Serialize, PartialEq']
+    if model.get('response_derives') and all(ch.isalnum() or ch in ':, _' for ch in model['response_derives']):
+        spellings.append(model['response_derives'])
+    seen = {}
+    rp = dict(kind='trait-lists', sdl=sdl, query=query, model=model)
+    for sp in spellings:
+        r = rt.gen(sdl, query, {'skip_serializing_none': bool(model.get('skip_serializing_none', True)), 'response_derives': sp})
+        if r['status'] != 'ok':
+            return None, f'generation fails with response_derives = {sp!r}: {r["text"][:200]}', rp
+        mod = native.find_mod(native.parse_generated(r['text']))
+        it = native.find_item(mod.items, 'ResponseData', 'struct')
+        attrs = {f[0]: sorted(' '.join(a) for a in f[2] if a and a[0] == 'serde') for f in it.fields} if it else None
+        seen[sp] = attrs
+    base = seen[spellings[0]]
+    for sp, attrs in seen.items():
+        if attrs != base:
+            return False, (f'`f: {expr}`, `g: [Int]` with skip_serializing_none: the serde attributes of ResponseData differ between response_derives = {spellings[0]!r} '
+                           f'({base}) and {sp!r} ({attrs})'), rp
+    return True, 'attributes independent of the trait lists', rp
 
 
 def confirm_nesting(C, model):
